@@ -141,3 +141,10 @@ func VerifNewClientResolver(settings ACLResolverSettings, rpc func(ctx context.C
 		Tokens:          new(token.Store),
 	})
 }
+
+// VerifACLPolicySet runs the real ACL.PolicySet endpoint on the shell (the shell is the leader of the
+// primary datacenter, so nothing is forwarded; the write goes through raftApply like every other).
+func VerifACLPolicySet(s *Server, args *structs.ACLPolicySetRequest, reply *structs.ACLPolicy) error {
+	a := &ACL{srv: s, logger: s.logger}
+	return a.PolicySet(args, reply)
+}
